@@ -638,7 +638,7 @@ def gen_program_x86(rng, feat, bits=32):
         # a cell at the very end of the translated code: the last byte of its immediate is the last byte of the
         # last translated range (the end address carries a breakpoint and is never translated).  It runs once per
         # pass over the program, so only a warm start, a restart or a host write sees it translated before it is patched
-        if not quiet and rng.random() < 0.5:          # otherwise only the host writes to it
+        if rng.random() < 0.5:          # otherwise only the host writes to it
             main = ["MOV BYTE PTR [cell8+%d], %s" % (rng.choice([4, 4, 3, 1]), rng.choice(["BL", "CL", "DL", "0x%x" % rng.getrandbits(8)]))] + main
     lines.extend(main)
     lines.append("JMP cell8" if tail else "JMP end")
@@ -1088,6 +1088,36 @@ def scratch_regs(arch):
     return ["EAX", "EBX", "ECX", "EDX", "ESI", "EDI", "EBP"]
 
 
+def perturbed(arch, init_regs):
+    """Initial registers of the earlier run of a warm start."""
+    regs = dict(init_regs)
+    for name in scratch_regs(arch):
+        if name in regs:
+            regs[name] = regs[name] ^ 0x5A5A5A5A
+    return regs
+
+
+def carried_memory(arch, prog, init_regs):
+    """Memory image left behind by the earlier run of a carrying warm start (python backend, own jitter)."""
+    e = env()
+    j = make_jitter(arch, "python", prog, perturbed(arch, init_regs), {})
+    for kind in SOFT_EXC_KINDS:
+        def on_exc(jitter, kind=kind):
+            soft_exception_effect(arch, jitter, kind)
+            return True
+        j.add_exception_handler(getattr(e.csts, "EXCEPT_" + kind), on_exc)
+    j.add_breakpoint(prog.end, lambda jitter: False)
+    j.init_run(prog.entry)
+    try:
+        j.continue_run()
+    except Exception as exc:
+        raise Discard("earlier run failed: %s" % type(exc).__name__)
+    if j.pc != prog.end:
+        raise Discard("earlier run did not reach the end")
+    mem = j.vm.get_all_memory()
+    return {a: mem[a]["data"] for a in mem}
+
+
 def set_regs(j, regs):
     """cpu.set_gpreg(cpu.get_gpreg()) round trip; JitCore_aarch64's set_gpreg refuses the 8-bit flag
     entries that its own get_gpreg returns, so fall back to one attribute at a time."""
@@ -1120,7 +1150,7 @@ def digest(j, pcregs, held=None):
 class Reference(object):
     """Single-step execution on the python backend."""
 
-    def __init__(self, arch, prog, init_regs, smc, host_writes=None):
+    def __init__(self, arch, prog, init_regs, smc, host_writes=None, init_mem=None):
         self.arch, self.prog = arch, prog
         self.pcs = []
         self.digests = []
@@ -1130,6 +1160,12 @@ class Reference(object):
         e = env()
         pcregs = ARCH_INFO[arch]["pcregs"]
         j = make_jitter(arch, "python", prog, init_regs, {"maxline": 1})
+        if init_mem:
+            # the memory image an earlier run left behind (nothing is translated yet on this fresh jitter)
+            for a, data in init_mem.items():
+                j.vm.set_mem(a, data)
+            j.vm.set_exception(0)
+            j.vm.reset_memory_access()
         self.applied_writes = 0
         # per-tick memory accesses of the reference (kind, address, size): what a fault must stop
         self.acc = []
@@ -1619,9 +1655,8 @@ class TestRun(object):
                 j.add_exception_handler(getattr(e.csts, "EXCEPT_" + kind), on_warm)
             # the earlier run started from other scratch-register values: what it translated (and patched, in a
             # self-modifying program) is not what this run is going to see
-            for name in scratch_regs(self.arch):
-                if name in cfg["init_regs"]:
-                    setattr(j.cpu, name, cfg["init_regs"][name] ^ 0x5A5A5A5A)
+            for name, val in perturbed(self.arch, cfg["init_regs"]).items():
+                setattr(j.cpu, name, val)
             j.init_run(self.prog.entry)
             try:
                 j.continue_run()
@@ -1638,6 +1673,15 @@ class TestRun(object):
             if first:
                 self.setup_jitter(j)
             fresh = make_jitter(self.arch, "python", self.prog, cfg["init_regs"], {})
+            if cfg["knobs"].get("carry"):
+                # the next run starts from the memory the earlier one left behind (code it patched included): only
+                # the registers are set again, the host writes nothing
+                set_regs(j, fresh.cpu.get_gpreg())
+                self.probe("warm_start")
+                self.probe("warm_carry")
+                if not first:
+                    self.setup_jitter(j)
+                return self._drive(j)
             mem = fresh.vm.get_all_memory()
             now = j.vm.get_all_memory()
             for a in mem:
@@ -1663,6 +1707,11 @@ class TestRun(object):
                 self.setup_jitter(j)
         else:
             self.setup_jitter(j)
+        return self._drive(j)
+
+    def _drive(self, j):
+        e = self.e
+        cfg = self.cfg
         j.init_run(self.prog.entry)
         guard = 0
         while True:
